@@ -72,6 +72,7 @@ func c01Specs(tier string) []seqSpec {
 		add("default/bytewise", c01AlphaBig, 3)
 		add("snappy/bytewise", c01Alpha, 3)
 		add("tinycache/bytewise", c01Alpha, 3)
+		add("throttle/bytewise", c01Alpha, 3) // writers wait for the table compaction at two level-0 tables
 		for _, k := range []string{"shortlex", "revtail", "xormap", "lazy"} {
 			addCmp("flushy", k, 4)
 			addCmp("wide", k, 3)
@@ -97,6 +98,7 @@ func c01Specs(tier string) []seqSpec {
 		add("snappy/bytewise", c01Alpha, 4)
 		add("tinycache/bytewise", c01Alpha, 4)
 		add("seeky/bytewise", c01Alpha, 4)
+		add("throttle/bytewise", c01Alpha, 4)
 		for _, k := range []string{"shortlex", "revtail", "xormap", "lazy"} {
 			addCmp("flushy", k, 5)
 			addCmp("wide", k, 5)
